@@ -100,6 +100,138 @@ Qed.
 
 End FileClasses.
 
+(* ---------- (2) the "file:"-prefixed references against a file base ---------- *)
+(* the text behind "file:" is not empty and: starts with a Windows drive letter ("file:C|/y"), or has exactly one
+   leading '/' or '\' ("file:/x"), or is path-relative - first character not '/', '\', '?', '#' - and the last segment of
+   the base path is not a normalized Windows drive letter ("file:x") *)
+Definition std_file_same_pre (sb : spec_url) (l : list N) : bool :=
+  match spec_scheme l with
+  | Some (sch, c :: t) =>
+      list_eqb sch str_file
+      && (starts_with_windows_drive_letter (c :: t)
+          || (is_sl c && no_sl_head t)
+          || (negb (is_sl c) && negb (c =? 63) && negb (c =? 35) && last_not_nwdl (Whatwg.path_segments sb)))
+  | _ => false
+  end.
+
+Section StdSame.
+Variable shp : bool -> list N -> option spec_host.
+
+(* the Standard does NOT treat "file:x" / "file:/x" as absolute: host (and the empty credentials / port) of the file
+   base are kept *)
+Theorem std_contain_file_same input sb : spec_valid sb -> has_opaque_path sb = false ->
+  list_eqb (su_scheme sb) str_file = true -> std_file_same_pre sb (spec_clean input) = true ->
+  exists su, spec_basic_url_parse shp input (Some sb) = BDone su /\ spec_same_front sb su.
+Proof.
+  intros V Hop Hf Hpre. unfold std_file_same_pre in Hpre.
+  destruct (spec_scheme (spec_clean input)) as [[sch [|c t]]|] eqn:Es; try discriminate Hpre.
+  apply andb_true_iff in Hpre. destruct Hpre as [Hsch Hpre]. apply list_eqb_spec in Hsch. subst sch.
+  pose proof Hf as Hsf. apply list_eqb_spec in Hsf.
+  destruct (starts_with_windows_drive_letter (c :: t)) eqn:Hw.
+  { eexists. split; [exact (spec_file_same_drive shp sb input c t Es Hw Hf)|]. apply file_tail_front; [exact Hsf | exact V]. }
+  cbn [orb] in Hpre. destruct (is_sl c) eqn:Esl.
+  { cbn [andb negb orb] in Hpre. rewrite orb_false_r in Hpre.
+    eexists. split; [exact (spec_file_same_one shp sb input c t Es Esl Hpre Hop Hf)|].
+    apply file_tail_front; [exact Hsf | exact V]. }
+  cbn [andb negb orb] in Hpre. apply andb_true_iff in Hpre. destruct Hpre as [Hpre Hl].
+  apply andb_true_iff in Hpre. destruct Hpre as [E63 E35]. apply negb_true_iff in E63. apply negb_true_iff in E35.
+  eexists. split; [exact (spec_file_same_path shp sb input c t Es Hop Hf Esl E63 E35 Hw Hl)|].
+  apply file_tail_front; [exact Hsf | exact V].
+Qed.
+End StdSame.
+
+(* C01's four "file:"-prefixed classes meet the premise *)
+Lemma in_class_file_same_pre sb input : in_class_file_same_any sb input = true ->
+  has_opaque_path sb = false /\ list_eqb (su_scheme sb) str_file = true /\ std_file_same_pre sb (spec_clean input) = true.
+Proof.
+  unfold in_class_file_same_any. intros Hc. repeat rewrite orb_true_iff in Hc. destruct Hc as [[[Hc|Hc]|Hc]|Hc].
+  - destruct (file_base_ok_facts sb (in_class_file_same_path_base sb input Hc)) as (Hop & Hsf & _ & _ & Hl).
+    split; [exact Hop|]. split; [rewrite Hsf; reflexivity|].
+    unfold in_class_file_same_path in Hc. apply andb_true_iff in Hc. destruct Hc as [_ Hm].
+    unfold std_file_same_pre. destruct (spec_scheme (spec_clean input)) as [[sch [|c t]]|]; try discriminate Hm.
+    apply andb_true_iff in Hm. destruct Hm as [Hm _]. apply andb_true_iff in Hm. destruct Hm as [Hm _].
+    apply andb_true_iff in Hm. destruct Hm as [Hm Hw]. apply andb_true_iff in Hm. destruct Hm as [Hm H35].
+    apply andb_true_iff in Hm. destruct Hm as [Hm H63]. apply andb_true_iff in Hm. destruct Hm as [Hsch Hsl].
+    apply negb_true_iff in Hsl. apply negb_true_iff in Hw. rewrite Hsch, Hsl, H63, H35, Hl, Hw. reflexivity.
+  - unfold in_class_file_same_one in Hc. unfold std_file_same_pre.
+    destruct (spec_scheme (spec_clean input)) as [[sch R]|]; [|discriminate Hc].
+    apply andb_true_iff in Hc. destruct Hc as [Hsch Hok]. unfold file_one_ok in Hok.
+    apply andb_true_iff in Hok. destruct Hok as [Hok Hm]. apply andb_true_iff in Hok. destruct Hok as [Hop Hf].
+    apply negb_true_iff in Hop. split; [exact Hop|]. split; [exact Hf|].
+    destruct R as [|c1 R1]; [discriminate Hm|].
+    apply andb_true_iff in Hm. destruct Hm as [Hm _]. apply andb_true_iff in Hm. destruct Hm as [Hm _].
+    apply andb_true_iff in Hm. destruct Hm as [E1 Hh]. rewrite Hsch, E1, Hh.
+    destruct (starts_with_windows_drive_letter (c1 :: R1)); reflexivity.
+  - unfold in_class_file_same_one_carry in Hc. unfold std_file_same_pre.
+    destruct (spec_scheme (spec_clean input)) as [[sch R]|]; [|discriminate Hc].
+    apply andb_true_iff in Hc. destruct Hc as [Hsch Hok]. unfold file_one_carry_ok in Hok.
+    apply andb_true_iff in Hok. destruct Hok as [Hok Hm]. apply andb_true_iff in Hok. destruct Hok as [Hok _].
+    apply andb_true_iff in Hok. destruct Hok as [Hok _]. apply andb_true_iff in Hok. destruct Hok as [Hop Hf].
+    apply negb_true_iff in Hop. split; [exact Hop|]. split; [exact Hf|].
+    destruct R as [|c1 R1]; [discriminate Hm|].
+    apply andb_true_iff in Hm. destruct Hm as [Hm _]. apply andb_true_iff in Hm. destruct Hm as [Hm _].
+    apply andb_true_iff in Hm. destruct Hm as [Hm _]. apply andb_true_iff in Hm. destruct Hm as [E1 Hh].
+    rewrite Hsch, E1, Hh. destruct (starts_with_windows_drive_letter (c1 :: R1)); reflexivity.
+  - unfold in_class_file_same_drive in Hc. unfold std_file_same_pre.
+    destruct (spec_scheme (spec_clean input)) as [[sch R]|]; [|discriminate Hc].
+    apply andb_true_iff in Hc. destruct Hc as [Hsch Hok].
+    destruct (file_drive_ok_facts sb R Hok) as (Hop & Hf & _ & Hw & _).
+    split; [exact Hop|]. split; [exact Hf|].
+    destruct R as [|c t]; [discriminate Hw|]. rewrite Hsch, Hw. reflexivity.
+Qed.
+
+Section FileSameClasses.
+Variable dbg : bool.
+Variable hp hpo : list N -> result host.
+Variable hd : host -> list N.
+Variable shp : bool -> list N -> option spec_host.
+Variable shs : spec_host -> list N.
+
+(* C08_StdFileSlash.std_contain_transfer with the Standard-side fact (success, front kept) as a premise instead of
+   std_contain_pre: for references outside the premise of the containment law *)
+Theorem std_front_transfer b sb su input : related dbg shs b sb ->
+  spec_basic_url_parse shp input (Some sb) = BDone su -> spec_same_front sb su ->
+  agree_good dbg shs (parse_url dbg hp hpo hd None (Some b) input) (spec_basic_url_parse shp input (Some sb)) ->
+  spec_base_ok su = true
+  /\ ((parse_url dbg hp hpo hd None (Some b) input = PErr Overflow /\ U32_MAX_P < nlen (get_href shs su))
+      \/ exists u', parse_url dbg hp hpo hd None (Some b) input = POk u' /\ related dbg shs u' su
+                    /\ option_map api_front (api_of_model dbg u') = option_map api_front (api_of_model dbg b)).
+Proof.
+  intros R HS HF A. rewrite HS in A. cbn [agree_good] in A. destruct A as [Hbo [[E L]|(u' & E & Ru)]].
+  - split; [exact Hbo|]. left. split; assumption.
+  - split; [exact Hbo|]. right. exists u'. split; [exact E|]. split; [exact Ru|].
+    rewrite (rel_api _ _ _ _ Ru), (rel_api _ _ _ _ R). cbn [option_map]. rewrite (spec_front_api shs sb su HF). reflexivity.
+Qed.
+
+Hypothesis Hse : shs SEmpty = [].
+
+(* on C01's "file:"-prefixed classes the crate's join does not treat the reference as absolute either *)
+Theorem std_contain_file_same_classes_agree b sb input : usv_list input -> related dbg shs b sb -> spec_base_ok sb = true ->
+  in_class_file_same_any sb input = true ->
+  exists su, spec_basic_url_parse shp input (Some sb) = BDone su /\ spec_same_front sb su /\ spec_base_ok su = true
+    /\ ((parse_url dbg hp hpo hd None (Some b) input = PErr Overflow /\ U32_MAX_P < nlen (get_href shs su))
+        \/ exists u', parse_url dbg hp hpo hd None (Some b) input = POk u' /\ related dbg shs u' su
+                      /\ full_base dbg shs u' su
+                      /\ option_map api_front (api_of_model dbg u') = option_map api_front (api_of_model dbg b)).
+Proof.
+  intros Hu R Hbok Hc.
+  destruct (in_class_file_same_pre sb input Hc) as (Hop & Hf & Hpre).
+  destruct (std_contain_file_same shp input sb (rel_valid _ _ _ _ R) Hop Hf Hpre) as (su & HS & HF).
+  assert (agree_good dbg shs (parse_url dbg hp hpo hd None (Some b) input) (spec_basic_url_parse shp input (Some sb))
+          /\ (forall su u, spec_basic_url_parse shp input (Some sb) = BDone su ->
+                parse_url dbg hp hpo hd None (Some b) input = POk u -> full_base dbg shs u su)) as (A & FB).
+  { unfold in_class_file_same_any in Hc. repeat rewrite orb_true_iff in Hc. destruct Hc as [[[Hc|Hc]|Hc]|Hc].
+    - exact (class_file_same_path dbg hp hpo hd shp shs input b sb Hu R Hbok Hc).
+    - exact (class_file_same_one dbg hp hpo hd shp shs Hse input b sb Hu R Hbok Hc).
+    - exact (class_file_same_one_carry dbg hp hpo hd shp shs Hse input b sb Hu R Hc).
+    - exact (class_file_same_drive dbg hp hpo hd shp shs Hse input b sb Hu R Hc). }
+  destruct (std_front_transfer b sb su input R HS HF A) as (Hok & K).
+  exists su. split; [exact HS|]. split; [exact HF|]. split; [exact Hok|].
+  destruct K as [K|(u' & E & Ru & Hapi)]; [left; exact K|].
+  right. exists u'. split; [exact E|]. split; [exact Ru|]. split; [exact (FB su u' HS E) | exact Hapi].
+Qed.
+End FileSameClasses.
+
 (* ---------- non-vacuity ---------- *)
 From RU Require Import Model.Host Proofs.C09_Host Spec.WhatwgHostParse.
 (* base parsed by both parsers; every reference is in the class `cls`, the flag says whether it meets std_contain_pre;
